@@ -11,7 +11,8 @@ a tiny two-key Gaussian model; compared with the model inside coqc: exception cl
 stack depth at return, the trace of pushes/pops (recorded by wrapping the names the driver imported),
 transitions applied, minimiser calls (iteration, number of samples), inspect/terminate callbacks (with
 the stack depth they see), the set of files in the output directory and files written into directories
-of EARLIER calls.
+of EARLIER calls, and (round 7) the CONTENT of the resume marker last_finished_iteration after the call
+(model: marker_after; theorems C27_marker_below_total, C27_marker_dry_run).
 
 Direct oracle (independent of Coq): every valid configuration completes, leaves the RNG stacks with the
 same objects and unchanged outer generator states (depth only when the pickled state is loaded on
@@ -279,6 +280,10 @@ def run_once(cfg, total, resume, outdir, known_dirs, init_index=0):
         for f, sig in after.items():
             if before.get(f) != sig:
                 foreign.append(f)
+    try:        # content of the resume marker after the call (round 7: compared with marker_after of the model)
+        o["last1"] = int(open(lfile).read()) if lfile and os.path.isfile(lfile) else None
+    except ValueError:
+        o["last1"] = -1
     cwd1 = listing(scratch_dir)
     o["cwd_writes"] = sorted(f for f, sig in cwd1.items() if cwd0.get(f) != sig)
     o["foreign"] = sorted(foreign)
@@ -349,7 +354,11 @@ def check_term(cfg, total, resume, outdir, o, init=0):
     else:
         shape = "(false, 0, false, 0)"
     obs = "(%d, %s, %s, %s, %s)" % (o["code"], shape, C.clist([act_coq(a) for a in o["acts"]]), C.clist(f1), C.clist(fo))
-    return "run_ok %s %s %s %s" % (VARIANT, opts_coq(cfg, total, resume, outdir, init), env, obs)
+    if o.get("last1") == -1:
+        return None
+    oc = opts_coq(cfg, total, resume, outdir, init)
+    return "andb (run_ok %s %s %s %s) (marker_ok %s %s %s %d %s)" % (
+        VARIANT, oc, env, obs, VARIANT, oc, env, o["code"], C.copt(o.get("last1"), lambda x: "%d" % x))
 
 
 def direct_failures(cfg, total, resume, outdir, o, valid, no_history=False):
@@ -665,7 +674,7 @@ class C27(C.Check):
                            {"kind": r["kind"], "cfg": r["cfg"], "total": r["total"], "resume": r["resume"],
                             "has_outdir": r["outdir"] is not None, "initial_index": r["init"],
                             "observed": {k: o[k] for k in ("err", "code", "depth0", "depth1", "last0", "stale", "acts",
-                                                           "files0", "files1", "foreign") if k in o},
+                                                           "files0", "files1", "foreign", "last1") if k in o},
                             "shape": {k: o.get(k) for k in ("tuple", "n", "residual")}})
         distinct = len({json.dumps(r["cfg"], sort_keys=True) + str((r["total"], r["resume"], r["init"])) for r in self.obs
                         if r["obs"]["code"] == 0 and any(a[0] == "min" for a in r["obs"]["acts"])})
